@@ -73,25 +73,25 @@ CLAIMS = {
 }
 
 EXTRA = {
-    "C01": " Also: one positional sequence for list members (M2), date-times as instants (Z-R3..Z-R7), closed writer cannot emit <X /> (Q-R6), header/body hand-over (B, H rules). Round 5: every class found under its tag (S-R2), millisecond format (L-R3). Round 6: reader rules V-R1..V-R7 (entity decoder decodes once), only B-R1/B-R3/B-R6 of the header family. Round 7: to_etree builds its result on every call (M3), the closed writer writes characters, not character references (Q-R6). Round 8: Integer reader not through float (T-R3), groom overrides only retag (U-R9). Round 9: constraints in validate_args are route-independent - kwargs values are not ordered or computed with (S-R6d). Z-R5b (sign of [-0.30]). Round 10: open-tag stack per instance (P-R1 clause).",
-    "C02": " Also: tag group of unbounded length (X-R1), tail group independent of the end-tag group (X-R7), every match dispatched (P-R6), no early exit from the token loop (P-R7). Round 5: the stack of open tags is per instance (P-R1). Round 7: start() refuses nothing but a second root (P-R3). Round 9: one tokenizer - no second markup parser constructed in ofxtools.Parser (P-R8). Round 10: the conditions before an end() imply end tag / data / close tag (P-R10); feed() tokenizes the text it was given (P-R7).",
-    "C03": " Also: no decimal context arithmetic in the converters (T-R6b), tokenizer rules X-R*; comma never dropped (V-R7), no implicit concatenation in token tables (V-R8), one sequence for list members (M2), grammar and carrier date of times (Z-R1, Z-R6). Round 5: normalised values labelled UTC (Z-R4), CHARSET codec table (H-R2). Round 6: values at a limit reach the model (T-R4), one descriptor per child (S-R9), reducer rules also on the loop form of the fold. Round 8: groom overrides only retag (U-R9). Round 9: OFXTree.convert() builds the model in every call (P-R9); limit switches are declarations, not run-time state (T-R4b). One seeded change declined (enumeration contents are specification data). Round 10: offset range tests written with module constants admit -12..+14 (V-R13 = Z-R8); decoded text handed on unaltered (V-R6).",
-    "C04": " Also: guard tables T-R4 measure the value itself. Round 6: a declared child is never skipped without trace (F-R4), order guard decided on paths, loop form of the fold. Round 7: mutex members counted by `is not None` (F-R5, structural), groupby in overrides fed sorted input (S-R6), mutex tables re-iterable (E-R7). Round 8: per-class tables not read through inheritance, also under computed names (S-R10). Round 9: overrides forward *args/**kwargs as received (S-R6), constraints route-independent (S-R6d), groom overrides do not re-sequence children (F-R4b = U-R9). Round 10: T-R4b (no run-time switch of String.strict). One seeded change declined (order of declarations is the only statement of the spec order).",
-    "C05": " Also, path by path: every version-1 path repositions before reading, body handed over whole and without newline translation (H-R1); quote back-references of the XML declaration (B-R9). Round 5: everything read ahead of the header is decoded by a total, one-character-per-byte decoder (H-R1; defect D16 fixed in a240aaf). Round 6: relative seek form (H-R1). Round 7: every v1 path decodes the body with the parsed header's codec (H-R1). Round 9: the decoded body is wrapped in nothing but a whitespace strip on every path (H-R1 body-not-rewritten); header fields stored as given, through nothing but int()/str()/validator (B-R2). Round 10: nothing between read() and decode() (H-R1).",
-    "C06": " Also: aware datetimes are never relabelled (Z-R7), writer offset notation (Z-R3), closed writer (Q-R6). Round 5: what is sorted and grouped is the whole multiset of requests (Q-R7). Round 6: string writers return what was checked (Q-R8 = T-R3). Round 7: constructor arguments stored and profile sign-on anonymous (Q-R9 = N-R9/N-R6). Round 8: keyword values are the caller's values unedited and flags not hard-wired (Q-R2), composing stores nothing on the client (Q-R10). Round 9: supplied text is kept - no str reader reached from Element.__set__ decodes entities (T-R10; known finding F6 on today's tree); offset minutes take the sign of the hours (Z-R5); indent() stores only indentation (W-R7). Round 10: sign not printed by a numeric format of the hours part (Z-R3).",
-    "C07": " Also: positional deletions in descending order (U-R7), every matched tag dispatched / no early exit (P-R6, P-R7), tokenizer rules X-R*. Round 5: .text/.tail of unknown elements never used as an object unguarded (U-R8); open-tag stack per instance (P-R1). Round 6: loop form of the fold (break in the unknown-tag branch), membership test in place of the try (U-R1). Round 9: loop form of the fold - state carried between children is not assigned on the unknown-tag path (U-R1b).",
+    "C01": " Also: one positional sequence for list members (M2), date-times as instants (Z-R3..Z-R7), closed writer cannot emit <X /> (Q-R6), header/body hand-over (B, H rules). Round 5: every class found under its tag (S-R2), millisecond format (L-R3). Round 6: reader rules V-R1..V-R7 (entity decoder decodes once), only B-R1/B-R3/B-R6 of the header family. Round 7: to_etree builds its result on every call (M3), the closed writer writes characters, not character references (Q-R6). Round 8: Integer reader not through float (T-R3), groom overrides only retag (U-R9). Round 9: constraints in validate_args are route-independent - kwargs values are not ordered or computed with (S-R6d). Z-R5b (sign of [-0.30]). Round 10: open-tag stack per instance (P-R1 clause). Round 11: per-class memo not read through inheritance, descriptors included (S-R10); written children always recorded by the reader (W-R11 = F-R4 clause); CDATA content spans lines (X-R3; D18 fixed in 2aef96b).",
+    "C02": " Also: tag group of unbounded length (X-R1), tail group independent of the end-tag group (X-R7), every match dispatched (P-R6), no early exit from the token loop (P-R7). Round 5: the stack of open tags is per instance (P-R1). Round 7: start() refuses nothing but a second root (P-R3). Round 9: one tokenizer - no second markup parser constructed in ofxtools.Parser (P-R8). Round 10: the conditions before an end() imply end tag / data / close tag (P-R10); feed() tokenizes the text it was given (P-R7). Round 11: CDATA content spans lines and may be set off by whitespace (X-R3; D18 fixed in 2aef96b).",
+    "C03": " Also: no decimal context arithmetic in the converters (T-R6b), tokenizer rules X-R*; comma never dropped (V-R7), no implicit concatenation in token tables (V-R8), one sequence for list members (M2), grammar and carrier date of times (Z-R1, Z-R6). Round 5: normalised values labelled UTC (Z-R4), CHARSET codec table (H-R2). Round 6: values at a limit reach the model (T-R4), one descriptor per child (S-R9), reducer rules also on the loop form of the fold. Round 8: groom overrides only retag (U-R9). Round 9: OFXTree.convert() builds the model in every call (P-R9); limit switches are declarations, not run-time state (T-R4b). One seeded change declined (enumeration contents are specification data). Round 10: offset range tests written with module constants admit -12..+14 (V-R13 = Z-R8); decoded text handed on unaltered (V-R6). Round 11: every child's class reachable by tag (V-R14 = S-R2); unknown tag leaves the fold's state alone (U-R1 / U-R1b); zone table consistent (Z-R12).",
+    "C04": " Also: guard tables T-R4 measure the value itself. Round 6: a declared child is never skipped without trace (F-R4), order guard decided on paths, loop form of the fold. Round 7: mutex members counted by `is not None` (F-R5, structural), groupby in overrides fed sorted input (S-R6), mutex tables re-iterable (E-R7). Round 8: per-class tables not read through inheritance, also under computed names (S-R10). Round 9: overrides forward *args/**kwargs as received (S-R6), constraints route-independent (S-R6d), groom overrides do not re-sequence children (F-R4b = U-R9). Round 10: T-R4b (no run-time switch of String.strict). One seeded change declined (order of declarations is the only statement of the spec order). Round 11: U-R1 / U-R1b (an unknown tag does not reset the order check); all_equal compares every member (S-R6e).",
+    "C05": " Also, path by path: every version-1 path repositions before reading, body handed over whole and without newline translation (H-R1); quote back-references of the XML declaration (B-R9). Round 5: everything read ahead of the header is decoded by a total, one-character-per-byte decoder (H-R1; defect D16 fixed in a240aaf). Round 6: relative seek form (H-R1). Round 7: every v1 path decodes the body with the parsed header's codec (H-R1). Round 9: the decoded body is wrapped in nothing but a whitespace strip on every path (H-R1 body-not-rewritten); header fields stored as given, through nothing but int()/str()/validator (B-R2). Round 10: nothing between read() and decode() (H-R1). Round 11: validators and patterns of the header fields (B-R4, B-R6); body not cut by an upper-bounded slice (H-R1).",
+    "C06": " Also: aware datetimes are never relabelled (Z-R7), writer offset notation (Z-R3), closed writer (Q-R6). Round 5: what is sorted and grouped is the whole multiset of requests (Q-R7). Round 6: string writers return what was checked (Q-R8 = T-R3). Round 7: constructor arguments stored and profile sign-on anonymous (Q-R9 = N-R9/N-R6). Round 8: keyword values are the caller's values unedited and flags not hard-wired (Q-R2), composing stores nothing on the client (Q-R10). Round 9: supplied text is kept - no str reader reached from Element.__set__ decodes entities (T-R10; known finding F6 on today's tree); offset minutes take the sign of the hours (Z-R5); indent() stores only indentation (W-R7). Round 10: sign not printed by a numeric format of the hours part (Z-R3). Round 11: a parameter overwritten by None before use (Q-R2); format templates of the unclosed writer are literals (L-R2).",
+    "C07": " Also: positional deletions in descending order (U-R7), every matched tag dispatched / no early exit (P-R6, P-R7), tokenizer rules X-R*. Round 5: .text/.tail of unknown elements never used as an object unguarded (U-R8); open-tag stack per instance (P-R1). Round 6: loop form of the fold (break in the unknown-tag branch), membership test in place of the try (U-R1). Round 9: loop form of the fold - state carried between children is not assigned on the unknown-tag path (U-R1b). Round 11: no partial table indexed by a child's tag (U-R10); hand-over clauses of H-R1 (U-R11).",
     "C08": " Also: every matched tag dispatched (P-R6), no early exit from the token loop (P-R7), tail group independent (X-R7), body handed over whole (H-R1). Round 5: open-tag stack per instance (P-R1). Round 6: the tail group matches every non-'<' run from its first character (X-R4). Round 9: one tokenizer (P-R8); no invented end - self.end() only from the dispatcher on a tested match (P-R10).",
-    "C09": " Also: whole-hour offsets and zone-table fallback (Z-R4); carrier date of Time arithmetic (Z-R6), aware values kept (Z-R7), awareness decided by utcoffset() (Z-R2), zone-name group admits written names (Z-R3). Round 5: UTC label (Z-R4), range tests on offset hours admit -12..+14 (Z-R8), no run-time memo table in the date routines (Z-R9), exact millisecond format (L-R3). Round 6: only int() may fail in the statement that falls back to the zone table (Z-R4). Round 9: the sign of an offset survives an hours field of zero - int(<hours text>) needs a test of the text's sign character (Z-R5b; D9 fixed in e4b95cf). Round 10: zone data read from the value as given (Z-R10); Z-R3 signed-format clause.",
-    "C10": " Also Z-R2/Z-R4..Z-R7 for the date/time converters. Round 5: OneOf.valid never re-bound to one member (T-R3). Round 6: date/time grammar (T-R8 = Z-R1/Z-R1b), len(str(value)) is not a digit count (T-R4). Round 7: writer inside the reader's grammar (T-R9 = Z-R3). Round 9: no handler registered for a foreign type, Union annotations split (T-R1); limit switches never assigned at run time (T-R4b); the two decode tables (V-R5, V-R6); supplied text kept (T-R10; known finding F6). Z-R5b (sign of [-0.30]).",
+    "C09": " Also: whole-hour offsets and zone-table fallback (Z-R4); carrier date of Time arithmetic (Z-R6), aware values kept (Z-R7), awareness decided by utcoffset() (Z-R2), zone-name group admits written names (Z-R3). Round 5: UTC label (Z-R4), range tests on offset hours admit -12..+14 (Z-R8), no run-time memo table in the date routines (Z-R9), exact millisecond format (L-R3). Round 6: only int() may fail in the statement that falls back to the zone table (Z-R4). Round 9: the sign of an offset survives an hours field of zero - int(<hours text>) needs a test of the text's sign character (Z-R5b; D9 fixed in e4b95cf). Round 10: zone data read from the value as given (Z-R10); Z-R3 signed-format clause. Round 11: zone table consistent (Z-R12); dates typed at the command line reach the converter as typed (Z-R11 = J-R9).",
+    "C10": " Also Z-R2/Z-R4..Z-R7 for the date/time converters. Round 5: OneOf.valid never re-bound to one member (T-R3). Round 6: date/time grammar (T-R8 = Z-R1/Z-R1b), len(str(value)) is not a digit count (T-R4). Round 7: writer inside the reader's grammar (T-R9 = Z-R3). Round 9: no handler registered for a foreign type, Union annotations split (T-R1); limit switches never assigned at run time (T-R4b); the two decode tables (V-R5, V-R6); supplied text kept (T-R10; known finding F6). Z-R5b (sign of [-0.30]). Round 11: subclass declaration wins in _superdict (S-R12); offset domain (Z-R8).",
     "C11": " Also: length guard measures the value (T-R4), offset notation (Z-R3), list elements through their converter (L-R4). Round 7: offset pieces cut from strftime('%z') with both bounds (Z-R3). Round 9: limit switches (String.strict ...) never assigned at run time (T-R4b).",
-    "C12": " Also: mandatory fields on the pattern's mandatory spine (B-R7), no bounded repetition at the unanchored end (B-R8), routing by int(version)//100 (leading-digit routing recognised as wrong). Round 5: the refusing side of the validators is evaluated here too (T-R2/T-R3/T-R4); v1 token fields admit exactly the OFX 1.x tokens (B-R4). Round 6: no field normalised before validation (B-R2). Round 7: int()-converted fields captured by digit-only groups (B-R11); header text validated as read, byte for character (B-R12 = chunk clauses of H-R1). Round 9: digit count never by two-argument math.log (T-R4); a `version` parameter of a request method is never dropped (B-R13 = version clause of Q-R1); T-R4b.",
-    "C13": " Also: one descriptor object per child (S-R9), token tables without implicit concatenation (V-R8). Round 5: no class-level table remembered on cls and read through inheritance (S-R10). Round 7: every child an override tests can be supplied (S-R6c, exhaustive truth table), mutex tables re-iterable (S-R11 = E-R7). Round 9: groom/ungroom overrides only rename (S-R11 = U-R9, helpers followed, elem[:] = ...); route-independent constraints (S-R6d).",
-    "C14": " Also: service URLs from the current profile (N-R10 = K-R1 return rules); every constructor parameter stored under its own name (N-R9). Round 5: self.url stored only by __init__ (N-R11). Round 7: no handler re-sends the body, no send in a loop or exception handler (N-R12). Round 9: no function of the package re-binds a client's cookie jar or clears / edits one (N-R8). Round 10: the jar has the default cookie policy (N-R8).",
-    "C15": " Also: a fresh profile returns what the server sent (K-R1), key components reach the name whole (K-R3); rename after the temporary file is closed (K-R2), returned stream rewound (K-R1). All on enumerated paths of the flattened method with value origins. Round 5: the server's response is handed back only when not older than the held profile (K-R1); DTPROFUP written with an exact millisecond field (K-R5 = L-R3). Round 6: the held date is read by the DateTime reader whose offset plumbing is Z-R4/Z-R5 (K-R6). Round 7: K-R2 reads tempfile.NamedTemporaryFile / mkstemp. Round 9: no many-to-one rewriting of ORG/FID in the cache file name (K-R3 unmerged); a truncated response is refused - no invented end tags (K-R7 = P-R10). Round 10: no per-process hash()/id() in the cache file name (K-R3).",
+    "C12": " Also: mandatory fields on the pattern's mandatory spine (B-R7), no bounded repetition at the unanchored end (B-R8), routing by int(version)//100 (leading-digit routing recognised as wrong). Round 5: the refusing side of the validators is evaluated here too (T-R2/T-R3/T-R4); v1 token fields admit exactly the OFX 1.x tokens (B-R4). Round 6: no field normalised before validation (B-R2). Round 7: int()-converted fields captured by digit-only groups (B-R11); header text validated as read, byte for character (B-R12 = chunk clauses of H-R1). Round 9: digit count never by two-argument math.log (T-R4); a `version` parameter of a request method is never dropped (B-R13 = version clause of Q-R1); T-R4b. Round 11: str(header) built on every call (B-R14); self.version never swapped by a request (B-R15 = Q-R10 clause).",
+    "C13": " Also: one descriptor object per child (S-R9), token tables without implicit concatenation (V-R8). Round 5: no class-level table remembered on cls and read through inheritance (S-R10). Round 7: every child an override tests can be supplied (S-R6c, exhaustive truth table), mutex tables re-iterable (S-R11 = E-R7). Round 9: groom/ungroom overrides only rename (S-R11 = U-R9, helpers followed, elem[:] = ...); route-independent constraints (S-R6d). Round 11: S-R12, S-R6e.",
+    "C14": " Also: service URLs from the current profile (N-R10 = K-R1 return rules); every constructor parameter stored under its own name (N-R9). Round 5: self.url stored only by __init__ (N-R11). Round 7: no handler re-sends the body, no send in a loop or exception handler (N-R12). Round 9: no function of the package re-binds a client's cookie jar or clears / edits one (N-R8). Round 10: the jar has the default cookie policy (N-R8). Round 11: the requests transport stores what the server sets (N-R8); cache key quality (N-R13 = K-R3 clauses).",
+    "C15": " Also: a fresh profile returns what the server sent (K-R1), key components reach the name whole (K-R3); rename after the temporary file is closed (K-R2), returned stream rewound (K-R1). All on enumerated paths of the flattened method with value origins. Round 5: the server's response is handed back only when not older than the held profile (K-R1); DTPROFUP written with an exact millisecond field (K-R5 = L-R3). Round 6: the held date is read by the DateTime reader whose offset plumbing is Z-R4/Z-R5 (K-R6). Round 7: K-R2 reads tempfile.NamedTemporaryFile / mkstemp. Round 9: no many-to-one rewriting of ORG/FID in the cache file name (K-R3 unmerged); a truncated response is refused - no invented end tags (K-R7 = P-R10). Round 10: no per-process hash()/id() in the cache file name (K-R3). Round 11: zone table consistent (Z-R12); end() compares the innermost open tag (P-R1 clauses).",
     "C16": " Also: no cached shortcut (A-R5), utils.UTC picklable (A-R6); a successful proxied read is returned whatever its value (A-R1), per-element unrolling of loops over explicit alternatives (A-R2), `or <default>` on a sub-aggregate and document order of shortcut lists (A-R3). Round 5: per-class sub-aggregate tables (A-R7 = S-R10); possibly-None locals collected only under `is not None` (A-R3). Round 6: truth tests of aggregates that cannot have list members (A-R2). Round 7: shortcuts leave the model as it was (A-R8 = effect rules on properties), default copy protocol (A-R9). Round 8: an alias is the child on every path and shortcuts raise only AttributeError (A-R3). Round 9: no swallowed miss - a getter whose name a sub-aggregate can answer has no unguarded read that raises AttributeError on a valid instance (A-R10); alias properties typed. Round 10: Element.__get__ never answers an unset slot with AttributeError (A-R1); shortcuts never hand out copies (A-R3).",
     "C17": " Also: class-level mutex tables re-iterable (E-R7), no memoisation keyed on non-text arguments (E-R8); class-level containers mutated through self (triage 8a), text wrappers around caller streams detached (E-R5), decimal context untouched (E-R6). Round 7: shallow copies share their members; `x += seq` on an alias is an in-place change. Round 10: no process-wide interpreter setting changed (E-R9: warnings filters, decimal context, locale ...).",
-    "C18": " Also: OFX Home consulted whenever configured (G-R1, path conditions), writer/reader agree on '%' (G-R5), read_config returns what it read (G-R3), argparse declarations by abstract interpretation. Round 5: the user file is re-read before it is opened for writing (G-R4). Round 6: OFX Home record used whatever its fields (G-R1), boolean client arguments deliver both values (G-R8); dry-run / CLIENTUID / reload clauses decided on paths. Round 7: boolean reader knows all true spellings, list reader splits on the comma alone (G-R3), section read = section written (G-R9). Round 8: skipped options are cleared from the section (G-R7; defect D17 fixed in f973700), only USERCFG.write reaches the user's file (G-R10). Round 9: 'unset' is NULL_ARGS membership, never falsiness (G-R7); values picked from individual sources name them in rank order (G-R1). Round 10: every urlopen of the OFX Home lookup inside the URLError-handling try (G-R11).",
-    "C19": " Also: discovered accounts inserted right after the command line, string writers return what was checked (J-R5 = T-R3); command-line layer keeps every non-None value (J-R3), date plumbing (J-R4 = Z-R4/Z-R5), sending client built after the merge. Round 5: parameters of the request builders reach the like-named children (J-R6 = Q-R1/Q-R2), ofxget token tables (V-R8). Round 6: --all merge-before-read decided on paths with flag locals. Round 7: list reader clause (J-R7 = G-R3). Round 8: include flags not hard-wired (Q-R2). Round 9: argparse dests and args[k] reads are DEFAULTS keys (J-R8 = G-R2); a builder keyword is not `<param> if <other param> else None` (Q-R2). Round 10: date options reach the converter as typed (J-R9).",
+    "C18": " Also: OFX Home consulted whenever configured (G-R1, path conditions), writer/reader agree on '%' (G-R5), read_config returns what it read (G-R3), argparse declarations by abstract interpretation. Round 5: the user file is re-read before it is opened for writing (G-R4). Round 6: OFX Home record used whatever its fields (G-R1), boolean client arguments deliver both values (G-R8); dry-run / CLIENTUID / reload clauses decided on paths. Round 7: boolean reader knows all true spellings, list reader splits on the comma alone (G-R3), section read = section written (G-R9). Round 8: skipped options are cleared from the section (G-R7; defect D17 fixed in f973700), only USERCFG.write reaches the user's file (G-R10). Round 9: 'unset' is NULL_ARGS membership, never falsiness (G-R7); values picked from individual sources name them in rank order (G-R1). Round 10: every urlopen of the OFX Home lookup inside the URLError-handling try (G-R11). Round 11: regex list separator needs a comma (G-R3); FID repair keeps the element (G-R12).",
+    "C19": " Also: discovered accounts inserted right after the command line, string writers return what was checked (J-R5 = T-R3); command-line layer keeps every non-None value (J-R3), date plumbing (J-R4 = Z-R4/Z-R5), sending client built after the merge. Round 5: parameters of the request builders reach the like-named children (J-R6 = Q-R1/Q-R2), ofxget token tables (V-R8). Round 6: --all merge-before-read decided on paths with flag locals. Round 7: list reader clause (J-R7 = G-R3). Round 8: include flags not hard-wired (Q-R2). Round 9: argparse dests and args[k] reads are DEFAULTS keys (J-R8 = G-R2); a builder keyword is not `<param> if <other param> else None` (Q-R2). Round 10: date options reach the converter as typed (J-R9). Round 11: one-shot iterators consumed once (J-R10); user file read after the FI database (J-R11 = G-R1 clause).",
 }
 
 PENDING_REASON = "check not built yet in this session; planned per DESIGN.md section 3 - not claimed until its check exists"
